@@ -28,7 +28,7 @@ MIN_NONTRIVIAL = {"quick": 120, "thorough": 1200}
 REQUIRED_PROBES = ["pipe_reduce"]
 REQUIRED_FEATURES = ["map:builtin", "map:eager", "map:reverse-ordered", "map:unordered-permuted", "map:bursty-unordered",
                      "map:pool.map", "map:pool.imap", "map:pool.imap_unordered", "map:threads.map", "map:threads.imap_unordered", "chunksize:1", "chunksize:None",
-                     "chunksize:nnz+1", "mode:gw", "mode:cis", "mode:trans", "split-pipeline", "via:cli-balance", "history:path-reused",
+                     "chunksize:nnz+1", "mode:gw", "mode:cis", "mode:trans", "split-pipeline", "via:cli-balance", "history:path-reused", "history:failed-run-then-repeated-run:use_lock",
                      "history:long-lived-object-after-file-regenerated-with-more-pixels",
                      "cli-balance:ignore-dist:not-a-multiple-of-binsize", "data:signed-integers-cancelling-within-chunks"]
 SHARD_TIMEOUT = {"quick": 1800, "thorough": 7200}
@@ -327,6 +327,38 @@ def one_history(ctx, shard, i, rng, idx):
                                {"a": outs[0][1], "b": b_s}):
                     break
             os.remove(sp)
+    cid = f"h:{shard['sub']}:{i}:failed-run-then-lock"
+    if ctx.want(cid) and nnz >= 2:
+        with ctx.case(cid, dict(base_desc, history="a run whose chunk fetches fail (file gone), then the same run again, use_lock=True")) as c:
+            import cooler.parallel as PAR
+            c.feature("history:failed-run-then-repeated-run:use_lock")
+            o4 = dict(ignore_diags=1, mad_max=0, min_nnz=0, min_count=0, tol=1e-6, max_iters=50, rescale_marginals=True)
+            clr4 = cooler.Cooler(path)
+            ref4, _ = cooler.balance_cooler(clr4, chunksize=max(nnz // 2, 1), use_lock=True, **o4)
+
+            def gone_map(f_, it_):
+                # the tasks run while the file is away: every fetch fails
+                os.rename(path, path + ".away")
+                try:
+                    return list(map(f_, it_))
+                finally:
+                    os.rename(path + ".away", path)
+            failed = None
+            try:
+                cooler.balance_cooler(clr4, chunksize=max(nnz // 2, 1), map=gone_map, use_lock=True, **o4)
+            except Exception as e:  # noqa
+                failed = type(e).__name__
+            c.check(failed is not None, "harness:fault-not-delivered", "the run with the file away did not fail")
+            # logical observation instead of a deadline: is the module's lock still held after the failed run?
+            free = PAR.lock.acquire(False)
+            PAR.lock.release()          # (our probe's hold or the leaked one: the rest of the shard must not hang)
+            c.check(free, "lock-held-after-failed-run", f"cooler.parallel.lock is still held after a run that failed with {failed}: "
+                    "a repeated run with use_lock=True would block forever")
+            again, _ = cooler.balance_cooler(clr4, chunksize=max(nnz // 2, 1), use_lock=True, **o4)
+            c.check(np.array_equal(again, ref4, equal_nan=True), "repeated-run-differs-after-failed-run",
+                    "the run repeated after a failed one does not give the same weights")
+            c.nontrivial("failed-run", repr(base_desc.get("bt")), nnz)
+            probes.collect_worker_events(ctx)        # drain this case's pipeline events: they belong to no later case
     cid = f"h:{shard['sub']}:{i}:path-reuse"
     if ctx.want(cid) and n >= 6:
         with ctx.case(cid, dict(base_desc, history="file at the same path replaced by another cooler")) as c:
